@@ -37,7 +37,12 @@ type c01Case struct {
 	Msg    *msgJSON `json:"msg,omitempty"`
 	Header *ref.Header
 	BodyN  int `json:"body_n,omitempty"`
+	// Then: the evaluation that follows Msg on the same process (kind "retain")
+	Then *msgJSON `json:"then,omitempty"`
 }
+
+// c01Held is the previous body evaluation of this worker (see heldCodec).
+var c01Held *heldCodec
 
 func c01Run(c *Ctx) {
 	job := 0
@@ -208,6 +213,13 @@ func c01Body(c *Ctx, s layoutSpec, m *ref.Msg) {
 	if diff := sameMsg(m, fromImpl(d)); diff != "" {
 		fail("decode", "decoded fields differ: "+diff)
 	}
+	// the previous evaluation's results must have survived this one
+	if what := c01Held.changed(); what != "" {
+		pj, j := msgToJSON(c01Held.L, c01Held.M), msgToJSON(s.L, m)
+		c.R.Violate("retain/"+c01Held.L.Name+"/"+firstWord(what), fmt.Sprintf("%s after %s then %s: %s", c01Held.L.Name, c01Held.M.String(), m.String(), what),
+			c01Case{Kind: "retain", Msg: &pj, Then: &j})
+	}
+	c01Held = holdCodec(s.L, m, v, got, want, d)
 }
 
 func firstWord(s string) string {
@@ -301,6 +313,12 @@ func c01Replay(c *Ctx, raw json.RawMessage) {
 	switch cs.Kind {
 	case "body":
 		l, m := msgFromJSON(*cs.Msg)
+		c01Body(c, specByName(l.Name), m)
+	case "retain":
+		c01Held = nil
+		l, m := msgFromJSON(*cs.Msg)
+		c01Body(c, specByName(l.Name), m)
+		l, m = msgFromJSON(*cs.Then)
 		c01Body(c, specByName(l.Name), m)
 	case "header":
 		c01Header(c, *cs.Header)
